@@ -118,6 +118,27 @@ def call_builtin(it, name, args, kwargs):
             return [(start + i, x) for i, x in enumerate(conc)]
         n, elem = it.symbolic_iter(v)
         return SSeq(n, lambda k: (scalar_arith('+', start, k), elem(k)), 'enumerate')
+    if name == 'zip' and len(args) == 2 and isinstance(args[0], SWhere):
+        w, b = args
+        if isinstance(b, SCompact) and b.mask is w.mask:
+            bv = b.val
+            return SPairs(w.mask, lambda i: bv(i))
+        if isinstance(b, SWhere) and b.mask is w.mask:
+            return SPairs(w.mask, lambda i: i)
+        raise Unsupported('zip of an index set with values over another index set')
+    if name in ('list', 'tuple') and args and isinstance(args[0], SPairs):
+        return args[0]
+    if name == 'in_pairs':
+        # clause helper: (a, b) is an element of an index-set pair sequence (None: the empty sequence)
+        ps, a, b = args
+        if ps is None:
+            return False
+        if not isinstance(ps, SPairs):
+            raise Unsupported('in_pairs of %r' % (ps,))
+        n = ps.mask.n
+        g = npm.fz(ps.mask)
+        ctx.add_iterm(tz(a))
+        return zand(scalar_cmp('<=', 0, a), scalar_cmp('<', a, n), g(a), scalar_cmp('==', ps.second(a), b, fp))
     if name == 'zip':
         concs = [it.concrete_iter(v) for v in args]
         if all(c is not None for c in concs):
@@ -565,6 +586,9 @@ def call_module(it, fv, args, kwargs):
         if dtype == 'bool':
             val = bool(val)
         return npm.new_arr(ctx, shape, lambda *ix: val, dtype, name)
+    if name in ('zeros_like', 'ones_like') and isinstance(a0, SWhere):
+        cval = 0 if name == 'zeros_like' else 1
+        return SCompact(a0.mask, lambda i: cval, 'int')
     if name in ('zeros_like', 'ones_like', 'empty_like'):
         if not isinstance(a0, SArr):
             raise Unsupported(name)
